@@ -19,6 +19,7 @@ class P(vlib.Prop):
         dict(name="repl", cmd="c11", args=lambda t, s: ["-stage", "repl"]),
         dict(name="copy", cmd="c11", args=lambda t, s: ["-stage", "copy"]),
         dict(name="e2e", cmd="c11", args=lambda t, s: ["-stage", "e2e"]),
+        dict(name="lic", cmd="c11", args=lambda t, s: ["-stage", "lic"]),
     )
     assumptions = (
         "names, versions and embedded documents are valid UTF-8 (encoding/json replaces invalid bytes by U+FFFD on the way out); stringToIdentifier itself is checked on arbitrary bytes",
